@@ -259,13 +259,14 @@ PROPS = {
         "explanation": "",
     },
     "C09": {
-        "modules": ["contracts.c09_client"],
+        "modules": ["contracts.c09_client", "contracts.c01_transfer"],
+        "unit_filter_prefix": ["Client."],
         "extra": ["contracts.index.c09_rt"],
         "level": "proof",
         "trusted_base": [T_PY, T_ENGINE, T_SOLVER, T_PATH],
         "assumptions": ["SEQ: one client operation at a time"],
         "not_decided": [
-            "the whole-tree statement (identical structure and contents for every tree shape) is an induction over the tree using the step contracts; it is covered only by the bounded run-time checker rt/c09_rt.py (real client against a real in-process server; 4 tree shapes of depth <= 3, destinations '', 'd', 'd/e', '/d/e', write_into on/off, 2 working directories) — labelled bounded",
+            "step contracts are discharged for Client.upload/download placement, Client.upload's copy loop, AsyncLister.__anext__ (loops unrolled twice), make_directory (depth <= 3), remove (fan-out <= 2); the whole-tree statement (identical structure and contents for every tree shape) is an induction over the tree using these step contracts and is covered only by the bounded run-time checker rt/c09_rt.py (real client against a real in-process server; 4 tree shapes of depth <= 3, destinations '', 'd', 'd/e', '/d/e', write_into on/off, 2 working directories) — labelled bounded",
             "the copy loops of upload/download (client side of C01) are not under contract",
         ],
         "explanation": "",
